@@ -1134,6 +1134,15 @@ fn check_formula(case: &str, f: &F, src: &str) -> Option<Fail> {
     if !robdd_named(&r, None) {
         return Some(Fail { case: case.into(), expected: "ordered and reduced".into(), actual: format!("{r:?}") });
     }
+    // full variable list: every name of the text exactly once, in id order
+    let mut allv: Vec<String> = pf.vars.iter().map(|v| v.name.as_ref().clone()).collect();
+    let ids_sorted = pf.vars.windows(2).all(|w| w[0].id < w[1].id);
+    let mut wall = vars.clone();
+    allv.sort();
+    wall.sort();
+    if allv != wall || !ids_sorted {
+        return Some(Fail { case: case.into(), expected: format!("variable list = every name once, ordered by id: {wall:?}"), actual: format!("{:?}", pf.vars) });
+    }
     // free variables: exactly the names with a free occurrence, in id (= first appearance) order
     let mut gfree: Vec<String> = pf.free_vars.iter().map(|v| v.name.as_ref().clone()).collect();
     let mut w2 = wfree.clone();
